@@ -1,43 +1,984 @@
+//! csv-cache — correspondence + oracle for C16 (the tiered cache is transparent).
+//!
+//! Every generated history runs on the real `CachedObjectStore` / `TieredCache`
+//! (moka L1, optional foyer L2 in a temp dir) stacked on `SchedStore` handles
+//! around an `InMemory` store.  Sequential operations run on client 0
+//! (uncontrolled); concurrent readers are spawned tasks on the current-thread
+//! runtime, each with its own SchedStore client id (picked by a task-local in
+//! `DispatchStore`), parked in front of their inner-store request by the
+//! controller and released in the generated order, with new-object writes and
+//! invalidations in between.
+//!
+//! Compared per read, token by token:
+//!   * implementation vs extracted Coq model (modelrun-cache): result (length,
+//!     FNV-1a of the bytes, GetResult.range, meta.size, error kind) and the tier
+//!     that answered.  The tier the implementation's hit/miss counters report is
+//!     handed to the model as the eviction oracle's choice; the model answers
+//!     with the tier that can serve the read in ITS state, so a hit on an entry
+//!     the model never inserted is a disagreement.
+//!   * oracle (no model): the same request issued directly against the raw
+//!     InMemory store; the cached store must return the same bytes / range /
+//!     size, fail when the raw store fails, and fail for absent keys.
+use async_trait::async_trait;
+use bytes::Bytes;
 use cardinalsin::query::{CacheConfig, CachedObjectStore, TieredCache};
+use csv_common::sched::{Action, Controller, Hub, SchedStore};
+use csv_common::{ddmin, Args, Model, Report, Rng};
+use futures::stream::BoxStream;
+use futures::FutureExt;
 use object_store::memory::InMemory;
 use object_store::path::Path;
-use object_store::{GetOptions, ObjectStore, PutPayload};
+use object_store::{
+    GetOptions, GetRange, GetResult, ListResult, MultipartUpload, ObjectMeta, ObjectStore, PutMode,
+    PutMultipartOpts, PutOptions, PutPayload, PutResult, Result as OsResult,
+};
+use serde_json::json;
+use std::collections::BTreeMap;
+use std::fmt;
+use std::panic::AssertUnwindSafe;
 use std::sync::Arc;
-use std::time::Instant;
+
+tokio::task_local! {
+    static READER: usize;
+}
+
+const MAX_READERS: usize = 64;
+
+/// Routes every request to the SchedStore handle of the reader task that issued it.
+struct DispatchStore {
+    handles: Vec<Arc<SchedStore>>,
+}
+impl DispatchStore {
+    fn h(&self) -> &Arc<SchedStore> {
+        let c = READER.try_with(|r| *r).unwrap_or(0);
+        &self.handles[c.min(self.handles.len() - 1)]
+    }
+}
+impl fmt::Debug for DispatchStore {
+    fn fmt(&self, f: &mut fmt::Formatter<'_>) -> fmt::Result {
+        write!(f, "DispatchStore")
+    }
+}
+impl fmt::Display for DispatchStore {
+    fn fmt(&self, f: &mut fmt::Formatter<'_>) -> fmt::Result {
+        write!(f, "DispatchStore")
+    }
+}
+#[async_trait]
+impl ObjectStore for DispatchStore {
+    async fn put_opts(&self, location: &Path, payload: PutPayload, opts: PutOptions) -> OsResult<PutResult> {
+        self.h().put_opts(location, payload, opts).await
+    }
+    async fn put_multipart_opts(&self, location: &Path, opts: PutMultipartOpts) -> OsResult<Box<dyn MultipartUpload>> {
+        self.h().put_multipart_opts(location, opts).await
+    }
+    async fn get_opts(&self, location: &Path, options: GetOptions) -> OsResult<GetResult> {
+        self.h().get_opts(location, options).await
+    }
+    async fn delete(&self, location: &Path) -> OsResult<()> {
+        self.h().delete(location).await
+    }
+    fn list(&self, prefix: Option<&Path>) -> BoxStream<'_, OsResult<ObjectMeta>> {
+        self.handles[0].list(prefix)
+    }
+    async fn list_with_delimiter(&self, prefix: Option<&Path>) -> OsResult<ListResult> {
+        self.h().list_with_delimiter(prefix).await
+    }
+    async fn copy(&self, from: &Path, to: &Path) -> OsResult<()> {
+        self.h().copy(from, to).await
+    }
+    async fn copy_if_not_exists(&self, from: &Path, to: &Path) -> OsResult<()> {
+        self.h().copy_if_not_exists(from, to).await
+    }
+}
+
+// ------------------------------------------------------------------ cases ----
+/// Paths that are prefixes of each other, share file names across directories,
+/// differ in case or by one trailing character.
+const KEYS: &[&str] = &[
+    "a",
+    "a/b",
+    "a/b/c",
+    "a/bc",
+    "ab",
+    "b/a",
+    "A/b",
+    "a/b.parquet",
+    "a/b.parque",
+    "t1/chunk_1",
+    "t2/chunk_1",
+    "t1/chunk_10",
+    "t1/chunk_1/part",
+    "default/data/2024/01/01/00/chunk_0001.parquet",
+    "default/data/2024/01/01/00/chunk_0001.parquet.tmp",
+    "default/data/2024/01/01/01/chunk_0001.parquet",
+];
+
+#[derive(Clone, Debug, PartialEq)]
+struct Config {
+    l1: usize,
+    l2: usize,
+    dir: bool,
+}
+
+#[derive(Clone, Debug, PartialEq)]
+enum Tag {
+    Of(usize),
+    Bogus,
+}
+#[derive(Clone, Debug, PartialEq)]
+enum Cond {
+    None,
+    Star,
+    Tags(Vec<Tag>),
+}
+#[derive(Clone, Debug, PartialEq)]
+enum Date {
+    None,
+    Abs(i64),
+    Rel(usize, i64),
+}
+#[derive(Clone, Debug, PartialEq)]
+enum RangeSpec {
+    B(usize, usize),
+    O(usize),
+    S(usize),
+}
+#[derive(Clone, Debug, PartialEq)]
+enum Req {
+    Get(usize),
+    Opts { k: usize, range: Option<RangeSpec>, im: Cond, inm: Cond, md: Date, um: Date, version: bool, head: bool },
+    Range(usize, usize, usize),
+    Head(usize),
+}
+#[derive(Clone, Debug, PartialEq)]
+enum Op {
+    Put { k: usize, len: usize, fill: u32 },
+    Evict(usize),
+    Read(Req),
+    Start(u32, Req),
+    Go(u32),
+}
+
+fn content(len: usize, fill: u32) -> Vec<u8> {
+    (0..len).map(|i| (fill.wrapping_mul(37).wrapping_add(i as u32 * 11).wrapping_add(i as u32 / 256) & 0xff) as u8).collect()
+}
+
+impl Req {
+    fn key(&self) -> usize {
+        match self {
+            Req::Get(k) | Req::Range(k, _, _) | Req::Head(k) => *k,
+            Req::Opts { k, .. } => *k,
+        }
+    }
+    fn cached_path(&self) -> bool {
+        match self {
+            Req::Get(_) => true,
+            Req::Opts { range, im, inm, md, um, version, head, .. } => {
+                range.is_none() && *im == Cond::None && *inm == Cond::None && *md == Date::None && *um == Date::None && !version && !head
+            }
+            _ => false,
+        }
+    }
+}
+
+// symbolic text form of a case (replay files, shrinking, distinct counting)
+fn enc_cond(c: &Cond) -> String {
+    match c {
+        Cond::None => "-".into(),
+        Cond::Star => "*".into(),
+        Cond::Tags(v) if v.is_empty() => "e".into(),
+        Cond::Tags(v) => v.iter().map(|t| match t { Tag::Of(k) => format!("t{}", k), Tag::Bogus => "x".into() }).collect::<Vec<_>>().join(","),
+    }
+}
+fn dec_cond(s: &str) -> Cond {
+    match s {
+        "-" => Cond::None,
+        "*" => Cond::Star,
+        "e" => Cond::Tags(vec![]),
+        _ => Cond::Tags(s.split(',').map(|t| if t == "x" { Tag::Bogus } else { Tag::Of(t[1..].parse().unwrap()) }).collect()),
+    }
+}
+fn enc_date(d: &Date) -> String {
+    match d {
+        Date::None => "-".into(),
+        Date::Abs(n) => format!("a{}", n),
+        Date::Rel(k, d) => format!("r{}:{}", k, d),
+    }
+}
+fn dec_date(s: &str) -> Date {
+    if s == "-" {
+        Date::None
+    } else if let Some(r) = s.strip_prefix('a') {
+        Date::Abs(r.parse().unwrap())
+    } else {
+        let r = &s[1..];
+        let (k, d) = r.split_once(':').unwrap();
+        Date::Rel(k.parse().unwrap(), d.parse().unwrap())
+    }
+}
+fn enc_range(r: &Option<RangeSpec>) -> String {
+    match r {
+        None => "-".into(),
+        Some(RangeSpec::B(s, e)) => format!("b{}-{}", s, e),
+        Some(RangeSpec::O(o)) => format!("o{}", o),
+        Some(RangeSpec::S(n)) => format!("s{}", n),
+    }
+}
+fn dec_range(s: &str) -> Option<RangeSpec> {
+    if s == "-" {
+        return None;
+    }
+    let rest = &s[1..];
+    Some(match &s[..1] {
+        "b" => {
+            let (a, b) = rest.split_once('-').unwrap();
+            RangeSpec::B(a.parse().unwrap(), b.parse().unwrap())
+        }
+        "o" => RangeSpec::O(rest.parse().unwrap()),
+        _ => RangeSpec::S(rest.parse().unwrap()),
+    })
+}
+fn enc_req(q: &Req) -> String {
+    match q {
+        Req::Get(k) => format!("G {}", k),
+        Req::Range(k, s, e) => format!("N {} {} {}", k, s, e),
+        Req::Head(k) => format!("H {}", k),
+        Req::Opts { k, range, im, inm, md, um, version, head } => format!(
+            "O {} {} {} {} {} {} {} {}",
+            k, enc_range(range), enc_cond(im), enc_cond(inm), enc_date(md), enc_date(um), *version as u8, *head as u8
+        ),
+    }
+}
+fn dec_req(f: &[&str]) -> Req {
+    match f[0] {
+        "G" => Req::Get(f[1].parse().unwrap()),
+        "N" => Req::Range(f[1].parse().unwrap(), f[2].parse().unwrap(), f[3].parse().unwrap()),
+        "H" => Req::Head(f[1].parse().unwrap()),
+        _ => Req::Opts {
+            k: f[1].parse().unwrap(),
+            range: dec_range(f[2]),
+            im: dec_cond(f[3]),
+            inm: dec_cond(f[4]),
+            md: dec_date(f[5]),
+            um: dec_date(f[6]),
+            version: f[7] == "1",
+            head: f[8] == "1",
+        },
+    }
+}
+fn encode(ops: &[Op]) -> String {
+    ops.iter()
+        .map(|o| match o {
+            Op::Put { k, len, fill } => format!("P {} {} {}", k, len, fill),
+            Op::Evict(k) => format!("E {}", k),
+            Op::Read(q) => format!("R {}", enc_req(q)),
+            Op::Start(l, q) => format!("S {} {}", l, enc_req(q)),
+            Op::Go(l) => format!("W {}", l),
+        })
+        .collect::<Vec<_>>()
+        .join(";")
+}
+fn decode(s: &str) -> Vec<Op> {
+    s.split(';')
+        .filter(|t| !t.trim().is_empty())
+        .map(|t| {
+            let f: Vec<&str> = t.trim().split(' ').collect();
+            match f[0] {
+                "P" => Op::Put { k: f[1].parse().unwrap(), len: f[2].parse().unwrap(), fill: f[3].parse().unwrap() },
+                "E" => Op::Evict(f[1].parse().unwrap()),
+                "R" => Op::Read(dec_req(&f[1..])),
+                "S" => Op::Start(f[1].parse().unwrap(), dec_req(&f[2..])),
+                _ => Op::Go(f[1].parse().unwrap()),
+            }
+        })
+        .collect()
+}
+fn enc_cfg(c: &Config) -> String {
+    format!("{},{},{}", c.l1, c.l2, c.dir as u8)
+}
+fn dec_cfg(s: &str) -> Config {
+    let f: Vec<&str> = s.split(',').collect();
+    Config { l1: f[0].parse().unwrap(), l2: f[1].parse().unwrap(), dir: f[2] == "1" }
+}
+
+/// Drops `W` of readers that never arrived / already went, appends a `W` for every reader left parked.
+fn normalize(ops: &[Op]) -> Vec<Op> {
+    let mut out = Vec::new();
+    let mut waiting: Vec<u32> = Vec::new();
+    let mut seen: Vec<u32> = Vec::new();
+    for o in ops {
+        match o {
+            Op::Start(l, _) => {
+                if seen.contains(l) || seen.len() >= MAX_READERS - 1 {
+                    continue;
+                }
+                seen.push(*l);
+                waiting.push(*l);
+                out.push(o.clone());
+            }
+            Op::Go(l) => {
+                if let Some(i) = waiting.iter().position(|x| x == l) {
+                    waiting.remove(i);
+                    out.push(o.clone());
+                }
+            }
+            _ => out.push(o.clone()),
+        }
+    }
+    for l in waiting {
+        out.push(Op::Go(l));
+    }
+    out
+}
+
+// ------------------------------------------------------- canonical results ----
+fn fnv(b: &[u8]) -> u64 {
+    let mut h: u64 = 0xcbf29ce484222325;
+    for x in b {
+        h = (h ^ (*x as u64)).wrapping_mul(0x100000001b3);
+    }
+    h
+}
+
+fn err_code(e: &object_store::Error) -> String {
+    use object_store::Error as E;
+    match e {
+        E::NotFound { .. } => "E1".into(),
+        E::Precondition { .. } => "E2".into(),
+        E::NotModified { .. } => "E3".into(),
+        E::AlreadyExists { .. } => "E5".into(),
+        E::Generic { store, source } => {
+            if *store == "InMemory" {
+                "E4".into()
+            } else if *store == "CachedObjectStore" {
+                match source.downcast_ref::<cardinalsin::Error>() {
+                    Some(cardinalsin::Error::ObjectStore(inner)) => {
+                        let c = err_code(inner);
+                        match c.strip_prefix('E').and_then(|n| n.parse::<u32>().ok()) {
+                            Some(n) => format!("E{}", 100 + n),
+                            None => format!("Ewrap({})", c),
+                        }
+                    }
+                    Some(other) => format!("Ecache({})", other.to_string().chars().take(40).collect::<String>().replace([';', ' '], "_")),
+                    None => "Ecache(?)".into(),
+                }
+            } else {
+                format!("Egeneric({})", store)
+            }
+        }
+        other => format!("Eother({})", other.to_string().chars().take(30).collect::<String>().replace([';', ' '], "_")),
+    }
+}
+
+#[derive(Clone, Debug)]
+struct Resolved {
+    path: Path,
+    kind: u8, // 0 get, 1 get_opts, 2 get_range, 3 head
+    opts: GetOptions,
+    range: (usize, usize),
+}
+
+/// Issue a request against any ObjectStore and canonicalise the outcome.
+async fn issue(store: &dyn ObjectStore, r: &Resolved) -> String {
+    match r.kind {
+        0 | 1 => {
+            let res = if r.kind == 0 { store.get(&r.path).await } else { store.get_opts(&r.path, r.opts.clone()).await };
+            match res {
+                Ok(g) => {
+                    let range = g.range.clone();
+                    let size = g.meta.size;
+                    match g.bytes().await {
+                        Ok(b) => format!("ok:{}:{:016x}:{}-{}:{}", b.len(), fnv(&b), range.start, range.end, size),
+                        Err(e) => err_code(&e),
+                    }
+                }
+                Err(e) => err_code(&e),
+            }
+        }
+        2 => match store.get_range(&r.path, r.range.0..r.range.1).await {
+            Ok(b) => format!("ok:{}:{:016x}", b.len(), fnv(&b)),
+            Err(e) => err_code(&e),
+        },
+        _ => match store.head(&r.path).await {
+            Ok(m) => format!("ok:size={}", m.size),
+            Err(e) => err_code(&e),
+        },
+    }
+}
+
+fn strip_wrap(s: &str) -> String {
+    if let Some(n) = s.strip_prefix('E').and_then(|n| n.parse::<u32>().ok()) {
+        if n >= 100 {
+            return format!("E{}", n - 100);
+        }
+    }
+    s.to_string()
+}
+
+// ------------------------------------------------------------ implementation ----
+struct Meta {
+    etag: String,
+    mtime: i64,
+}
+
+struct Run {
+    model_line: String,
+    impl_out: String,
+    bad: Vec<String>,
+    obs: Vec<char>,
+    results: Vec<String>,
+    put_ok: usize,
+    parked_max: usize,
+}
+
+fn resolve(q: &Req, metas: &BTreeMap<usize, Meta>) -> (Resolved, String) {
+    let path = Path::from(KEYS[q.key() % KEYS.len()]);
+    let tag = |t: &Tag| -> String {
+        match t {
+            Tag::Of(k) => metas.get(k).map(|m| m.etag.clone()).unwrap_or_else(|| "999999".into()),
+            Tag::Bogus => "999999".into(),
+        }
+    };
+    let cond = |c: &Cond| -> (Option<String>, String) {
+        match c {
+            Cond::None => (None, "-".into()),
+            Cond::Star => (Some("*".into()), "*".into()),
+            Cond::Tags(v) if v.is_empty() => (Some(String::new()), "e".into()),
+            Cond::Tags(v) => {
+                let ts: Vec<String> = v.iter().map(tag).collect();
+                (Some(ts.join(", ")), ts.join(","))
+            }
+        }
+    };
+    let date = |d: &Date| -> (Option<chrono::DateTime<chrono::Utc>>, String) {
+        let ns = match d {
+            Date::None => return (None, "-".into()),
+            Date::Abs(n) => *n,
+            Date::Rel(k, delta) => metas.get(k).map(|m| m.mtime.saturating_add(*delta)).unwrap_or(0),
+        };
+        (Some(chrono::DateTime::from_timestamp_nanos(ns)), ns.to_string())
+    };
+    match q {
+        Req::Get(k) => (Resolved { path, kind: 0, opts: GetOptions::default(), range: (0, 0) }, format!("G {}", k)),
+        Req::Range(k, s, e) => (Resolved { path, kind: 2, opts: GetOptions::default(), range: (*s, *e) }, format!("N {} {} {}", k, s, e)),
+        Req::Head(k) => (Resolved { path, kind: 3, opts: GetOptions::default(), range: (0, 0) }, format!("H {}", k)),
+        Req::Opts { k, range, im, inm, md, um, version, head } => {
+            let (im_o, im_s) = cond(im);
+            let (inm_o, inm_s) = cond(inm);
+            let (md_o, md_s) = date(md);
+            let (um_o, um_s) = date(um);
+            let opts = GetOptions {
+                if_match: im_o,
+                if_none_match: inm_o,
+                if_modified_since: md_o,
+                if_unmodified_since: um_o,
+                range: range.as_ref().map(|r| match r {
+                    RangeSpec::B(s, e) => GetRange::Bounded(*s..*e),
+                    RangeSpec::O(o) => GetRange::Offset(*o),
+                    RangeSpec::S(n) => GetRange::Suffix(*n),
+                }),
+                version: if *version { Some("v1".into()) } else { None },
+                head: *head,
+            };
+            (
+                Resolved { path, kind: 1, opts, range: (0, 0) },
+                format!("O {} {} {} {} {} {} {} {}", k, enc_range(range), im_s, inm_s, md_s, um_s, *version as u8, *head as u8),
+            )
+        }
+    }
+}
+
+fn tier_of(before: &cardinalsin::query::CacheStats, after: &cardinalsin::query::CacheStats, cached_path: bool) -> char {
+    if after.l1_hits > before.l1_hits {
+        '1'
+    } else if after.l2_hits > before.l2_hits {
+        '2'
+    } else if after.l1_misses > before.l1_misses {
+        'M'
+    } else if cached_path {
+        '?'
+    } else {
+        'B'
+    }
+}
+
+struct Parked {
+    label: u32,
+    cid: usize,
+    resolved: Resolved,
+    present_at_arrival: bool,
+    handle: tokio::task::JoinHandle<String>,
+}
+
+async fn run_case(cfg: &Config, ops: &[Op]) -> Result<Run, String> {
+    let ops = normalize(ops);
+    let raw: Arc<dyn ObjectStore> = Arc::new(InMemory::new());
+    let hub = Hub::new(raw.clone());
+    let handles: Vec<Arc<SchedStore>> = (0..=MAX_READERS).map(|c| hub.client(c)).collect();
+    let controlled: Vec<usize> = (1..=MAX_READERS).collect();
+    let mut ctl: Controller = hub.attach(&controlled);
+    let dispatch: Arc<dyn ObjectStore> = Arc::new(DispatchStore { handles });
+    let td = tempfile::tempdir().map_err(|e| format!("tempdir: {}", e))?;
+    let cache = Arc::new(
+        TieredCache::new(CacheConfig {
+            l1_size: cfg.l1,
+            l2_size: cfg.l2,
+            l2_dir: if cfg.dir { Some(td.path().to_str().unwrap().to_string()) } else { None },
+        })
+        .await
+        .map_err(|e| format!("TieredCache::new: {}", e))?,
+    );
+    let cs = Arc::new(CachedObjectStore::new(dispatch, cache.clone()));
+
+    let mut metas: BTreeMap<usize, Meta> = BTreeMap::new();
+    let mut line: Vec<String> = vec![format!("C {}", cfg.dir as u8)];
+    let mut outs: Vec<String> = Vec::new();
+    let mut bad: Vec<String> = Vec::new();
+    let mut obs_all: Vec<char> = Vec::new();
+    let mut results: Vec<String> = Vec::new();
+    let mut parked: Vec<Parked> = Vec::new();
+    let mut arrivals: usize = 0; // reader index in the model = order of arrival
+    let mut index_of: BTreeMap<u32, usize> = BTreeMap::new();
+    let mut put_ok = 0usize;
+    let mut parked_max = 0usize;
+    let mut next_cid = 1usize;
+
+    for (i, op) in ops.iter().enumerate() {
+        match op {
+            Op::Put { k, len, fill } => {
+                let path = Path::from(KEYS[*k % KEYS.len()]);
+                let data = content(*len, *fill);
+                let r = cs
+                    .put_opts(&path, PutPayload::from(data.clone()), PutOptions { mode: PutMode::Create, ..Default::default() })
+                    .await;
+                let hex = if data.is_empty() { "-".to_string() } else { data.iter().map(|b| format!("{:02x}", b)).collect::<String>() };
+                match r {
+                    Ok(_) => {
+                        put_ok += 1;
+                        let m = raw.head(&path).await.map_err(|e| format!("raw head after put: {}", e))?;
+                        let etag = m.e_tag.clone().unwrap_or_default();
+                        let mtime = m.last_modified.timestamp_nanos_opt().unwrap_or(0);
+                        line.push(format!("P {} {} {} {}", k, etag, mtime, hex));
+                        metas.insert(*k, Meta { etag, mtime });
+                        outs.push("ok".into());
+                    }
+                    Err(e) => {
+                        line.push(format!("P {} 0 0 {}", k, hex));
+                        outs.push(err_code(&e));
+                    }
+                }
+            }
+            Op::Evict(k) => {
+                cache.invalidate(KEYS[*k % KEYS.len()]).await;
+                line.push(format!("E {}", k));
+                outs.push("-".into());
+            }
+            Op::Read(q) => {
+                let (res, qs) = resolve(q, &metas);
+                let before = cache.stats();
+                let got = match AssertUnwindSafe(issue(cs.as_ref(), &res)).catch_unwind().await {
+                    Ok(s) => s,
+                    Err(_) => "PANIC".to_string(),
+                };
+                let tier = tier_of(&before, &cache.stats(), q.cached_path());
+                let want = issue(raw.as_ref(), &res).await;
+                if strip_wrap(&got) != want {
+                    bad.push(format!("op {} ({}): read of {:?} through the cache returned {} but the backing store answers {}", i, qs, KEYS[q.key() % KEYS.len()], got, want));
+                }
+                arrivals += 1;
+                obs_all.push(tier);
+                results.push(got.clone());
+                line.push(format!("R {} {}", qs, tier));
+                outs.push(format!("{}@{}", got, tier));
+            }
+            Op::Start(label, q) => {
+                let (res, qs) = resolve(q, &metas);
+                let cid = next_cid;
+                next_cid += 1;
+                let present = raw.head(&res.path).await.is_ok();
+                let before = cache.stats();
+                let cs2 = cs.clone();
+                let hub2 = hub.clone();
+                let res2 = res.clone();
+                let handle = tokio::spawn(READER.scope(cid, async move {
+                    let out = match AssertUnwindSafe(issue(cs2.as_ref(), &res2)).catch_unwind().await {
+                        Ok(s) => s,
+                        Err(_) => "PANIC".to_string(),
+                    };
+                    hub2.note(cid, "done".into());
+                    out
+                }));
+                let at_store = ctl.wait_for(cid).await;
+                let tier = tier_of(&before, &cache.stats(), q.cached_path());
+                index_of.insert(*label, arrivals);
+                arrivals += 1;
+                obs_all.push(tier);
+                line.push(format!("S {} {}", qs, tier));
+                if at_store.is_some() {
+                    parked.push(Parked { label: *label, cid, resolved: res, present_at_arrival: present, handle });
+                    parked_max = parked_max.max(parked.len());
+                    outs.push(format!("parked@{}", tier));
+                } else {
+                    let _ = ctl.take_note(cid);
+                    let got = handle.await.unwrap_or_else(|_| "PANIC".into());
+                    let want = issue(raw.as_ref(), &res).await;
+                    if strip_wrap(&got) != want && !(strip_wrap(&got) == "E1" && !present) {
+                        bad.push(format!("op {} ({}): concurrent read of {:?} answered from the cache with {} but the backing store answers {}", i, qs, KEYS[q.key() % KEYS.len()], got, want));
+                    }
+                    results.push(got.clone());
+                    outs.push(format!("{}@{}", got, tier));
+                }
+            }
+            Op::Go(label) => {
+                let Some(pos) = parked.iter().position(|p| p.label == *label) else { continue };
+                let p = parked.remove(pos);
+                let mut guard = 0;
+                loop {
+                    ctl.step(p.cid, Action::Proceed).await;
+                    guard += 1;
+                    if !ctl.has_pending(p.cid) || guard > 8 {
+                        break;
+                    }
+                }
+                let _ = ctl.take_note(p.cid);
+                let got = p.handle.await.unwrap_or_else(|_| "PANIC".into());
+                let want = issue(raw.as_ref(), &p.resolved).await;
+                if strip_wrap(&got) != want && !(strip_wrap(&got) == "E1" && !p.present_at_arrival) {
+                    bad.push(format!("op {} (W {}): concurrent read of {} returned {} but the backing store answers {}", i, label, p.resolved.path, got, want));
+                }
+                results.push(got.clone());
+                line.push(format!("W {}", index_of.get(label).copied().unwrap_or(0)));
+                outs.push(got);
+            }
+        }
+    }
+    hub.detach();
+    ctl.release_all();
+    drop(cs);
+    cache.clear().await;
+    Ok(Run { model_line: line.join(";"), impl_out: outs.join(";"), bad, obs: obs_all, results, put_ok, parked_max })
+}
+
+// ------------------------------------------------------------ generator ----
+fn gen_len(rng: &mut Rng) -> usize {
+    *rng.pick(&[0usize, 1, 2, 5, 63, 64, 65, 100, 300, 1000, 3000])
+}
+
+fn gen_req(rng: &mut Rng, keys: &[usize], lens: &BTreeMap<usize, usize>) -> Req {
+    let k = *rng.pick(keys);
+    let len = lens.get(&k).copied().unwrap_or(10);
+    let pos = |rng: &mut Rng| -> usize {
+        match rng.below(6) {
+            0 => 0,
+            1 => len,
+            2 => len.saturating_sub(1),
+            3 => len + 1 + rng.below(5) as usize,
+            _ => rng.below(len as u64 + 1) as usize,
+        }
+    };
+    let r = rng.below(100);
+    if r < 45 {
+        Req::Get(k)
+    } else if r < 52 {
+        Req::Opts { k, range: None, im: Cond::None, inm: Cond::None, md: Date::None, um: Date::None, version: false, head: false }
+    } else if r < 62 {
+        let (a, b) = (pos(rng), pos(rng));
+        Req::Range(k, a, b)
+    } else if r < 72 {
+        let range = Some(match rng.below(3) {
+            0 => RangeSpec::B(pos(rng), pos(rng)),
+            1 => RangeSpec::O(pos(rng)),
+            _ => RangeSpec::S(pos(rng)),
+        });
+        Req::Opts { k, range, im: Cond::None, inm: Cond::None, md: Date::None, um: Date::None, version: false, head: false }
+    } else if r < 92 {
+        // conditional reads: ETag and date conditions, alone and combined (if_match has priority over the date)
+        let tagset = |rng: &mut Rng| -> Cond {
+            match rng.below(6) {
+                0 => Cond::Star,
+                1 => Cond::Tags(vec![]),
+                2 => Cond::Tags(vec![Tag::Of(k)]),
+                3 => Cond::Tags(vec![Tag::Bogus]),
+                4 => Cond::Tags(vec![Tag::Bogus, Tag::Of(k)]),
+                _ => Cond::Tags(vec![Tag::Of(*rng.pick(keys))]),
+            }
+        };
+        let date = |rng: &mut Rng| -> Date {
+            match rng.below(6) {
+                0 => Date::Abs(0),
+                1 => Date::Rel(k, 0),
+                2 => Date::Rel(k, -1),
+                3 => Date::Rel(k, 1),
+                4 => Date::Rel(k, 3_600_000_000_000),
+                _ => Date::Rel(k, -3_600_000_000_000),
+            }
+        };
+        let mut q = (Cond::None, Cond::None, Date::None, Date::None);
+        match rng.below(7) {
+            0 => q.0 = tagset(rng),
+            1 => q.1 = tagset(rng),
+            2 => q.2 = date(rng),
+            3 => q.3 = date(rng),
+            4 => {
+                q.0 = tagset(rng);
+                q.3 = date(rng);
+            }
+            5 => {
+                q.1 = tagset(rng);
+                q.2 = date(rng);
+            }
+            _ => {
+                q.2 = date(rng);
+                q.3 = date(rng);
+            }
+        }
+        let range = if rng.chance(1, 5) { Some(RangeSpec::B(pos(rng), pos(rng))) } else { None };
+        Req::Opts { k, range, im: q.0, inm: q.1, md: q.2, um: q.3, version: false, head: false }
+    } else if r < 96 {
+        Req::Head(k)
+    } else if r < 98 {
+        Req::Opts { k, range: None, im: Cond::None, inm: Cond::None, md: Date::None, um: Date::None, version: false, head: true }
+    } else {
+        Req::Opts { k, range: None, im: Cond::None, inm: Cond::None, md: Date::None, um: Date::None, version: true, head: false }
+    }
+}
+
+fn gen_config(rng: &mut Rng) -> Config {
+    let l1 = *rng.pick(&[1usize, 64, 1 << 20]);
+    if rng.chance(1, 2) {
+        Config { l1, l2: 0, dir: false }
+    } else {
+        Config { l1, l2: *rng.pick(&[4096usize, 1 << 20, 64 << 20]), dir: true }
+    }
+}
+
+fn gen_case(rng: &mut Rng, report: &mut Report) -> (Config, Vec<Op>) {
+    let cfg = gen_config(rng);
+    // a small set of related keys
+    let base = rng.below(KEYS.len() as u64) as usize;
+    let nkeys = rng.range_usize(2, 6);
+    let mut keys: Vec<usize> = (0..nkeys).map(|j| if rng.chance(2, 3) { (base + j) % KEYS.len() } else { rng.below(KEYS.len() as u64) as usize }).collect();
+    keys.sort();
+    keys.dedup();
+    let mut ops = Vec::new();
+    let mut lens: BTreeMap<usize, usize> = BTreeMap::new();
+    let mut fill = rng.below(1000) as u32;
+    let mut label = 0u32;
+    let mut waiting: Vec<u32> = Vec::new();
+    let nops = rng.range_usize(6, 30);
+    let burst_at = if cfg.l1 < (1 << 20) && rng.chance(1, 2) { Some(rng.range_usize(2, nops)) } else { None };
+    for i in 0..nops {
+        if Some(i) == burst_at && !lens.is_empty() {
+            // enough cache operations for moka to run its maintenance (evicts what exceeds the tiny L1)
+            let present: Vec<usize> = lens.keys().copied().collect();
+            let n = rng.range_usize(66, 80);
+            for j in 0..n {
+                ops.push(Op::Read(Req::Get(present[j % present.len().min(3)])));
+            }
+            report.bump("gen.burst");
+        }
+        let r = rng.below(100);
+        if r < 18 || (lens.is_empty() && r < 50) {
+            let k = *rng.pick(&keys);
+            let len = gen_len(rng);
+            fill += 1;
+            if lens.contains_key(&k) {
+                report.bump("op.put_existing");
+            } else {
+                lens.insert(k, len);
+            }
+            ops.push(Op::Put { k, len, fill });
+            report.bump("op.put");
+        } else if r < 24 {
+            ops.push(Op::Evict(*rng.pick(&keys)));
+            report.bump("op.invalidate");
+        } else if r < 70 {
+            ops.push(Op::Read(gen_req(rng, &keys, &lens)));
+            report.bump("op.read");
+        } else if r < 88 {
+            // a concurrent reader arrives; bias towards a key another parked reader is already after
+            let mut q = gen_req(rng, &keys, &lens);
+            if rng.chance(1, 2) {
+                if let Some(Op::Start(_, prev)) = ops.iter().rev().find(|o| matches!(o, Op::Start(..))) {
+                    q = if rng.chance(2, 3) { Req::Get(prev.key()) } else { q };
+                }
+            }
+            label += 1;
+            waiting.push(label);
+            ops.push(Op::Start(label, q));
+            report.bump("op.start");
+        } else if !waiting.is_empty() {
+            let idx = rng.below(waiting.len() as u64) as usize;
+            ops.push(Op::Go(waiting.remove(idx)));
+            report.bump("op.go");
+        } else {
+            ops.push(Op::Read(gen_req(rng, &keys, &lens)));
+            report.bump("op.read");
+        }
+    }
+    // release the rest in random order, then observe every key once more
+    while !waiting.is_empty() {
+        let idx = rng.below(waiting.len() as u64) as usize;
+        ops.push(Op::Go(waiting.remove(idx)));
+    }
+    for k in &keys {
+        ops.push(Op::Read(Req::Get(*k)));
+    }
+    (cfg, ops)
+}
+
+/// Proof-derived corner cases that always run first.
+fn corpus() -> Vec<(Config, Vec<Op>)> {
+    let g = |k| Op::Read(Req::Get(k));
+    let put = |k, len, fill| Op::Put { k, len, fill };
+    let plain = |k| Req::Opts { k, range: None, im: Cond::None, inm: Cond::None, md: Date::None, um: Date::None, version: false, head: false };
+    let um = |k, d| Req::Opts { k, range: None, im: Cond::None, inm: Cond::None, md: Date::None, um: d, version: false, head: false };
+    let md = |k, d| Req::Opts { k, range: None, im: Cond::None, inm: Cond::None, md: d, um: Date::None, version: false, head: false };
+    let ample = Config { l1: 1 << 20, l2: 0, dir: false };
+    let ample2 = Config { l1: 1 << 20, l2: 1 << 20, dir: true };
+    let tiny2 = Config { l1: 1, l2: 64 << 20, dir: true };
+    let mut v = vec![
+        // date conditions on a cached object (answered from the cache, ignoring the condition, before fix 595f54b)
+        (ample.clone(), vec![put(1, 100, 1), g(1), g(1), Op::Read(um(1, Date::Abs(0))), Op::Read(md(1, Date::Rel(1, 3_600_000_000_000))), Op::Read(um(1, Date::Rel(1, 0))), Op::Read(md(1, Date::Rel(1, -1))),
+            Op::Read(Req::Opts { k: 1, range: None, im: Cond::None, inm: Cond::None, md: Date::None, um: Date::None, version: false, head: true }),
+            Op::Read(Req::Opts { k: 1, range: None, im: Cond::None, inm: Cond::None, md: Date::None, um: Date::None, version: true, head: false })]),
+        // keys that are prefixes of each other / same file name in two directories / case / one character
+        (ample2.clone(), vec![put(1, 10, 1), put(2, 20, 2), put(3, 30, 3), put(4, 40, 4), put(9, 50, 5), put(10, 60, 6), put(11, 70, 7),
+            g(1), g(2), g(3), g(4), g(0), g(6), g(9), g(10), g(11), g(12), g(1), g(2), g(3), g(4), g(9), g(10), g(11), g(7), g(8)]),
+        // absent key: fails, caches nothing; created later: served; another absent key still fails
+        (ample2.clone(), vec![g(1), g(1), put(1, 64, 9), g(1), g(1), g(2), Op::Read(Req::Range(2, 0, 5)), Op::Read(Req::Head(2)), Op::Read(plain(2)), Op::Read(plain(1))]),
+        // two readers miss on one absent key, the object appears between their fetches
+        (ample.clone(), vec![Op::Start(1, Req::Get(5)), Op::Start(2, Req::Get(5)), Op::Go(1), put(5, 33, 4), Op::Go(2), g(5), Op::Start(3, Req::Get(6)), put(6, 1, 5), Op::Go(3), g(6)]),
+        // readers of the same and of different keys released in reverse order, invalidation in between
+        (ample2.clone(), vec![put(1, 100, 1), put(2, 200, 2), Op::Start(1, Req::Get(1)), Op::Start(2, Req::Get(2)), Op::Start(3, Req::Get(1)), Op::Start(4, Req::Range(1, 5, 50)),
+            Op::Go(3), Op::Evict(1), Op::Go(2), Op::Go(1), Op::Go(4), g(1), g(2), Op::Start(5, Req::Get(1)), Op::Start(6, um(1, Date::Abs(0)))]),
+        // ranges: end points, beyond the end, empty, inverted, empty object
+        (ample.clone(), vec![put(1, 10, 1), put(2, 0, 2), g(1), g(2), g(2), Op::Read(Req::Range(1, 0, 10)), Op::Read(Req::Range(1, 0, 11)), Op::Read(Req::Range(1, 9, 10)), Op::Read(Req::Range(1, 10, 12)),
+            Op::Read(Req::Range(1, 3, 3)), Op::Read(Req::Range(1, 5, 2)), Op::Read(Req::Range(2, 0, 1)),
+            Op::Read(Req::Opts { k: 1, range: Some(RangeSpec::S(3)), im: Cond::None, inm: Cond::None, md: Date::None, um: Date::None, version: false, head: false }),
+            Op::Read(Req::Opts { k: 1, range: Some(RangeSpec::S(30)), im: Cond::None, inm: Cond::None, md: Date::None, um: Date::None, version: false, head: false }),
+            Op::Read(Req::Opts { k: 2, range: Some(RangeSpec::S(3)), im: Cond::None, inm: Cond::None, md: Date::None, um: Date::None, version: false, head: false }),
+            Op::Read(Req::Opts { k: 1, range: Some(RangeSpec::O(10)), im: Cond::None, inm: Cond::None, md: Date::None, um: Date::None, version: false, head: false }),
+            Op::Read(Req::Opts { k: 1, range: Some(RangeSpec::O(4)), im: Cond::None, inm: Cond::None, md: Date::None, um: Date::None, version: false, head: false })]),
+        // ETag conditions
+        (ample.clone(), vec![put(1, 10, 1), put(2, 10, 2), g(1),
+            Op::Read(Req::Opts { k: 1, range: None, im: Cond::Tags(vec![Tag::Of(1)]), inm: Cond::None, md: Date::None, um: Date::None, version: false, head: false }),
+            Op::Read(Req::Opts { k: 1, range: None, im: Cond::Tags(vec![Tag::Of(2)]), inm: Cond::None, md: Date::None, um: Date::None, version: false, head: false }),
+            Op::Read(Req::Opts { k: 1, range: None, im: Cond::Tags(vec![Tag::Bogus, Tag::Of(1)]), inm: Cond::None, md: Date::None, um: Date::Abs(0), version: false, head: false }),
+            Op::Read(Req::Opts { k: 1, range: None, im: Cond::Star, inm: Cond::Star, md: Date::None, um: Date::None, version: false, head: false }),
+            Op::Read(Req::Opts { k: 1, range: None, im: Cond::None, inm: Cond::Tags(vec![Tag::Of(1)]), md: Date::None, um: Date::None, version: false, head: false }),
+            Op::Read(Req::Opts { k: 1, range: None, im: Cond::None, inm: Cond::Tags(vec![]), md: Date::Rel(1, 1), um: Date::None, version: false, head: false }),
+            Op::Read(Req::Opts { k: 3, range: None, im: Cond::Star, inm: Cond::None, md: Date::None, um: Date::None, version: false, head: false })]),
+    ];
+    // tiny L1 over a disk tier: enough reads for moka to evict, then L2 hits with promotion; rejected re-PUT in between
+    let mut ops = vec![put(1, 100, 1), put(2, 300, 2), put(3, 65, 3)];
+    for j in 0..150 {
+        ops.push(g(1 + j % 3));
+        if j == 75 {
+            ops.push(put(2, 5, 9));
+        }
+    }
+    v.push((tiny2, ops));
+    // tiny L1, no L2: eviction forces a second fetch
+    let mut ops = vec![put(1, 100, 1), put(2, 300, 2)];
+    for j in 0..140 {
+        ops.push(g(1 + j % 2));
+    }
+    v.push((Config { l1: 64, l2: 0, dir: false }, ops));
+    v
+}
+
+fn nontrivial(run: &Run) -> bool {
+    run.put_ok > 0 && run.results.iter().zip(run.obs.iter()).any(|(r, o)| r.starts_with("ok") && *o != 'B')
+}
 
 fn main() {
+    let args = Args::parse();
+    if std::env::var("CSV_LOUD").is_err() {
+        csv_common::quiet_panics();
+    }
     let rt = tokio::runtime::Builder::new_current_thread().enable_all().build().unwrap();
-    rt.block_on(async {
-        for (l1, l2, dir) in [(1usize, 0usize, false), (1 << 20, 0, false), (1, 1 << 20, true), (1 << 20, 16 << 20, true), (10, 4096, true)] {
-            let t0 = Instant::now();
-            let td = tempfile::tempdir().unwrap();
-            let cfg = CacheConfig { l1_size: l1, l2_size: l2, l2_dir: if dir { Some(td.path().to_str().unwrap().to_string()) } else { None } };
-            let cache = match TieredCache::new(cfg).await { Ok(c) => Arc::new(c), Err(e) => { println!("cfg {} {} {}: ERR {}", l1, l2, dir, e); continue; } };
-            let t1 = t0.elapsed();
-            let inner: Arc<dyn ObjectStore> = Arc::new(InMemory::new());
-            let cs = CachedObjectStore::new(inner.clone(), cache.clone());
-            let p = Path::from("a/b");
-            inner.put(&p, PutPayload::from_static(b"hello world")).await.unwrap();
-            let r1 = cs.get(&p).await.unwrap().bytes().await.unwrap();
-            let r2 = cs.get(&p).await.unwrap().bytes().await.unwrap();
-            let st = cache.stats();
-            println!("cfg l1={} l2={} dir={} new={:?} r1={:?} r2={:?} stats={:?}", l1, l2, dir, t1, r1, r2, st);
-            // date conditional
-            let o = GetOptions { if_unmodified_since: Some(chrono::DateTime::from_timestamp(0, 0).unwrap()), ..Default::default() };
-            let a = inner.get_opts(&p, o.clone()).await.map(|_| ()).map_err(|e| format!("{:?}", e));
-            let b = cs.get_opts(&p, o.clone()).await.map(|_| ()).map_err(|e| format!("{:?}", e));
-            println!("  if_unmodified_since(epoch): inner={:?} cached={:?}", a, b);
-            let o = GetOptions { if_modified_since: Some(chrono::Utc::now() + chrono::Duration::hours(1)), ..Default::default() };
-            let a = inner.get_opts(&p, o.clone()).await.map(|_| ()).map_err(|e| format!("{:?}", e));
-            let b = cs.get_opts(&p, o.clone()).await.map(|_| ()).map_err(|e| format!("{:?}", e));
-            println!("  if_modified_since(future): inner={:?} cached={:?}", a, b);
-            let q = Path::from("a/zz");
-            let a = inner.get(&q).await.map(|_| ()).map_err(|e| format!("{:?}", e));
-            let b = cs.get(&q).await.map(|_| ()).map_err(|e| format!("{:?}", e));
-            println!("  absent: inner={:?}\n          cached={:?}", a, b);
-            let t2 = Instant::now();
-            cache.clear().await;
-            println!("  clear {:?} total {:?}", t2.elapsed(), t0.elapsed());
+    let mut model = Model::spawn(&args.model);
+    let mut report = Report::new("C16");
+
+    if let Some(path) = &args.replay {
+        let txt = std::fs::read_to_string(path).expect("replay file");
+        let v: serde_json::Value = serde_json::from_str(&txt).expect("replay json");
+        let v = if v.get("cfg").is_some() { v.clone() } else { v["case"].clone() };
+        let cfg = dec_cfg(v["cfg"].as_str().unwrap_or("1048576,0,0"));
+        let ops = decode(v["ops"].as_str().unwrap_or(""));
+        let run = rt.block_on(run_case(&cfg, &ops)).expect("run");
+        let model_out = model.ask(&run.model_line);
+        println!("cfg  : {}\nops  : {}\nline : {}\nimpl : {}\nmodel: {}\noracle failures: {:?}", enc_cfg(&cfg), encode(&ops), run.model_line, run.impl_out, model_out, run.bad);
+        std::process::exit(if run.bad.is_empty() && (model.is_null() || run.impl_out == model_out) { 0 } else { 1 });
+    }
+
+    let n_random = if args.thorough() { 10_000 } else { 300 };
+    let mut rng = Rng::new(args.seed);
+    let mut cases: Vec<(String, Config, Vec<Op>)> = corpus().into_iter().map(|(c, o)| ("corpus".to_string(), c, o)).collect();
+    for _ in 0..n_random {
+        let mut r = rng.fork();
+        let (c, o) = gen_case(&mut r, &mut report);
+        cases.push(("random".to_string(), c, o));
+    }
+
+    for (origin, cfg, ops) in cases {
+        let ops = normalize(&ops);
+        let text = format!("{}|{}", enc_cfg(&cfg), encode(&ops));
+        let run = match rt.block_on(run_case(&cfg, &ops)) {
+            Ok(r) => r,
+            Err(e) => {
+                report.notes.push(format!("case could not run: {}", e));
+                report.oracle_violation("", &format!("harness could not run a case: {}", e), json!({"cfg": enc_cfg(&cfg), "ops": encode(&ops)}));
+                continue;
+            }
+        };
+        report.impl_runs += 1;
+        report.case(if nontrivial(&run) { Some(&text) } else { None });
+        report.bump(&format!("origin.{}", origin));
+        report.bump(&format!("cfg.l1={}.l2={}", match cfg.l1 { 1 => "tiny", 64 => "small", _ => "ample" }, if cfg.dir { match cfg.l2 { 4096 => "disk-tiny", _ => "disk" } } else { "none" }));
+        for o in &run.obs {
+            report.bump(&format!("served.{}", match o { '1' => "L1", '2' => "L2", 'M' => "miss-fetch", 'B' => "bypass", _ => "unknown" }));
         }
-    });
+        for r in &run.results {
+            let kind = if r.starts_with("ok") { "ok".to_string() } else { r.split('(').next().unwrap_or("E").to_string() };
+            report.bump(&format!("result.{}", kind));
+        }
+        if run.parked_max >= 2 {
+            report.bump("concurrent.two_or_more_parked");
+        }
+        let (differs, model_out) = model.differs(&run.model_line, &run.impl_out);
+        report.sample(json!({"cfg": enc_cfg(&cfg), "ops": encode(&ops).chars().take(400).collect::<String>(),
+                             "impl": run.impl_out.chars().take(400).collect::<String>(), "model": model_out.chars().take(400).collect::<String>()}));
+        if differs {
+            let shrunk = ddmin(&ops, &mut |cand: &[Op]| match rt.block_on(run_case(&cfg, cand)) {
+                Ok(r) => model.differs(&r.model_line, &r.impl_out).0,
+                Err(_) => false,
+            });
+            let sr = rt.block_on(run_case(&cfg, &shrunk)).ok();
+            let (sl, si, sbad) = sr.map(|r| (r.model_line, r.impl_out, r.bad)).unwrap_or_default();
+            let sm = model.ask(&sl);
+            report.disagreement(json!({
+                "correspondence": "cache model (Model/Cache.v) vs CachedObjectStore/TieredCache",
+                "case": {"cfg": enc_cfg(&cfg), "ops": encode(&ops)}, "impl": run.impl_out, "model": model_out,
+                "shrunk": {"cfg": enc_cfg(&cfg), "ops": encode(&shrunk)}, "shrunk_line": sl, "shrunk_impl": si, "shrunk_model": sm,
+                "oracle_failed": !sbad.is_empty() || !run.bad.is_empty(),
+            }));
+        }
+        if !run.bad.is_empty() {
+            let shrunk = ddmin(&ops, &mut |cand: &[Op]| match rt.block_on(run_case(&cfg, cand)) {
+                Ok(r) => !r.bad.is_empty(),
+                Err(_) => false,
+            });
+            let sbad = rt.block_on(run_case(&cfg, &shrunk)).map(|r| r.bad).unwrap_or_default();
+            let what = if sbad.is_empty() { run.bad.join("; ") } else { sbad.join("; ") };
+            report.oracle_violation("", &what, json!({"cfg": enc_cfg(&cfg), "ops": encode(&shrunk), "original": encode(&ops)}));
+        }
+    }
+    report.notes.push(format!("model calls: {}", model.calls));
+    report.write(&args.out);
 }
+
+#[allow(dead_code)]
+fn _unused(_: Bytes) {}
